@@ -132,13 +132,15 @@ def _flows_ok(body, local, seen, depth=0):
     return True, "consumed"
 
 
-def _check_side(an, rep, side, rule_id):
+def _check_side(an, rep, side, rule_id, crate=None, roots=None):
     R = rep.rule(rule_id, "in %s-reachable code every Result<_, desert::Error> is propagated with `?`, returned, matched, or "
                           "yielded as an iterator item; .ok() / .unwrap_or*() / .is_ok() / let _ = / plain drop are violations"
                  % side)
-    core = an.core()
+    core = crate or an.core()
     cg = callgraph.CallGraph(core)
-    roots = callgraph.decode_roots(core) if side == "decode" else callgraph.encode_roots(core)
+    selftest = roots is not None
+    if roots is None:
+        roots = callgraph.decode_roots(core) if side == "decode" else callgraph.encode_roots(core)
     paths = cg.reach(roots)
     n = 0
     for defn, path in sorted(paths.items()):
@@ -157,6 +159,8 @@ def _check_side(an, rep, side, rule_id):
             okk, why = _flows_ok(b, dest["local"], set())
             R.check(okk, b.key, "result of " + info["key"], "library error is not propagated: %s" % why, mir.loc(b, bb),
                     {"call_path_from_root": path}, sample={"fn": b.key, "result_of": info["key"], "fate": why})
+    if selftest:
+        return R
     R.floor("fallible library calls inspected", n, 60 if side == "decode" else 40)
     # the one accepted conversion: deserialize_iterator turns a failed count read into an error-yielding iterator
     if side == "decode":
